@@ -1,10 +1,15 @@
 SPECIFICATION TSpec
 CONSTANTS
-  MaxRank = 3
-  MaxNpc = 6
+  MaxRank = 8
+  MaxNpc = 8
   MaxIter = 2000000
   Guarded = TRUE
   Sites = {"PCA"}
+  NProcs = {1}
+  FilterSerial = TRUE
+  FilterMT = TRUE
+  Capped = TRUE
+  CapIter = 2
   PropOnly = FALSE
   TolAlg = 10000
   TolVar = 1000
